@@ -434,10 +434,10 @@ def run_property(pid, tier, rep):
         # medium continua (beyond the optimality search): the two back-ends must still agree with each other
         recs += l3_records(pa, rng, 60 if quick else 1000, both, ["partition", "soft"], violations, cands=False, recompute=False,
                            search=False, shapes=[(3, 7), (4, 5), (2, 15), (5, 4), (3, 9)], unlabelled=0.0)
-        recs += l3_records(pa, rng, 360 if quick else 5000, both, ["partition"], violations, cands=False, recompute=False,
+        recs += l3_records(pa, rng, 260 if quick else 5000, both, ["partition"], violations, cands=False, recompute=False,
                            search=False, shapes=[(3, 7), (3, 8), (4, 5), (3, 6)], unlabelled=0.0, dense=True)
         # a few large ones (5x8 .. 5x10, tens of thousands of candidates): tiny objective coefficients, long branch-and-bound
-        recs += l3_records(pa, rng, 10 if quick else 120, both, ["partition"], violations, cands=False, recompute=False,
+        recs += l3_records(pa, rng, 28 if quick else 200, both, ["partition"], violations, cands=False, recompute=False,
                            search=False, shapes=[(5, 8), (5, 10), (4, 12), (5, 9)], unlabelled=0.0, dense=True)
         recs = add_other_backend_cost(recs)
     elif pid == "C11":
